@@ -11,3 +11,7 @@ import Skv.Props.C16
 #print axioms C12_repair_reads_back
 #print axioms C12_append_after_repair
 #print axioms C12_consts_ok
+#print axioms C16_cached_reads_are_verified
+#print axioms cache_before_verify_serves_damage
+#print axioms C12_truncation_prefix
+#print axioms C12_truncation_repair
